@@ -625,6 +625,23 @@ def kv_receivers(tree: ast.Module) -> dict:
         the public `<recv>.append/extend(x)`; the child is a fresh copy when x is `y.copy()` or when the public
         method called copies its argument at every one of its own sites (`via`)."""
         res = []
+        # local names that only ever hold a fresh copy (`tmp = x.copy()`)
+        binds: dict[str, list[ast.expr]] = {}
+        for n in ast.walk(fn):
+            if isinstance(n, ast.Assign):
+                for t in n.targets:
+                    for nm in ast.walk(t):
+                        if isinstance(nm, ast.Name):
+                            binds.setdefault(nm.id, []).append(n.value if isinstance(t, ast.Name) else ast.Constant(value=None))
+            elif isinstance(n, (ast.For, ast.AugAssign, ast.AnnAssign, ast.NamedExpr, ast.comprehension)):
+                for nm in ast.walk(n.target):
+                    if isinstance(nm, ast.Name):
+                        binds.setdefault(nm.id, []).append(ast.Constant(value=None))
+        params = {a.arg for a in fn.args.args + fn.args.kwonlyargs}
+        local_copies = {k for k, vs in binds.items() if k not in params and vs and all(is_copy_call(v) for v in vs)}
+
+        def is_fresh(arg: ast.expr) -> bool:
+            return is_copy_call(arg) or (isinstance(arg, ast.Name) and arg.id in local_copies)
 
         def walk(body: list[ast.stmt], single: Optional[bool]) -> None:
             for st in body:
@@ -657,7 +674,7 @@ def kv_receivers(tree: ast.Module) -> dict:
                         if len(c.args) != 1 or c.keywords:
                             raise TranslateError(f'Keyvalues.{fn.name}: unrecognised append `{ast.unparse(c)}` (line {st.lineno})')
                         arg = c.args[0]
-                        copied = is_copy_call(arg) or (public and via.get(parts[1], False))
+                        copied = is_fresh(arg) or (public and via.get(parts[1], False))
                         res.append((single, 'RSelf' if recv == 'self' else 'RCopy', copied, st.lineno))
                     elif '_value' in f and not f.startswith(('isinstance', 'warnings.')):
                         raise TranslateError(f'Keyvalues.{fn.name}: unrecognised use of _value `{f}` (line {st.lineno})')
